@@ -416,6 +416,7 @@ def main(argv):
     lean_ok = ok_build and discharged == obligations and not bad_tokens and obligations > 0
     if not lean_ok:
         log("LEAN NOT OK:", lean_info)
+    ctx.lean_ok = lean_ok
 
     # 4-6. correspondence + oracle
     if h is not None and os.path.exists(driver_path()):
